@@ -225,6 +225,12 @@ def item_request(repo, out):
                  'retries = response.raw.retries.new()', 'return process(response)'):
         if frag not in tb:
             raise TranslateError('request: loop body lacks `%s`' % frag)
+    # ... in exactly this order, and nothing else, inside the `with _request(...)` block
+    w = trs[0].body[0]
+    if len(trs[0].body) != 1 or not isinstance(w, ast.With) or [ast.unparse(x) for x in w.body] != [
+            '_raise_for_status(response, chunk_name, ignored_errors)', 'retries = response.raw.retries.new()',
+            'return process(response)']:
+        raise TranslateError('request: the with-block is not raise_for_status; renew retries; return process(response)')
     pre = [ast.unparse(s) for s in loops[0].body if not isinstance(s, ast.Try)]
     if pre != ['adapter.max_retries = retries']:
         raise TranslateError('request: loop must set adapter.max_retries = retries: %s' % pre)
